@@ -282,7 +282,7 @@ theorem lists_respected (cfg : Cfg) (hw : cfg.wf = true) (t0 : Nat) (is : List I
 private def api : Str := ['a', 'p', 'i']
 private def cfg21 : Cfg := ⟨2, 1, none, none, [(api, .ip ⟨93, 184, 216, 34⟩)]⟩
 private def fail1 : Input := .call ⟨api, .absent, .connErr, .ok⟩
-private def fail2 : Input := .call ⟨api, .absent, .errHdr, .ok⟩
+private def fail2 : Input := .call ⟨api, .absent, .errHdr ['1', '0'], .ok⟩
 private def good : Input := .call ⟨api, .absent, .ok, .ok⟩
 
 /-- Threshold 2, cool-down 1 s (8 ticks): two failures (one by exception, one by header) trip the
